@@ -652,8 +652,16 @@ func (m *measureWorld) checkQuery(ctx context.Context, st vlib.State, ev map[str
 	req.Criteria = criteriaOf(vlib.Map(q, "crit"))
 	// series selection is expressed through the entity tag
 	series := vlib.Ints(vlib.List(q, "series"))
-	if len(series) == 1 {
+	if len(series) >= 1 {
 		ent := &modelv1.Criteria{Exp: &modelv1.Criteria_Condition{Condition: &modelv1.Condition{Name: "svc", Op: modelv1.Condition_BINARY_OP_EQ, Value: tagStr(m.seriesName(series[0]))}}}
+		if len(series) > 1 {
+			var names []string
+			for _, sr := range series {
+				names = append(names, m.seriesName(sr))
+			}
+			ent = &modelv1.Criteria{Exp: &modelv1.Criteria_Condition{Condition: &modelv1.Condition{Name: "svc", Op: modelv1.Condition_BINARY_OP_IN,
+				Value: &modelv1.TagValue{Value: &modelv1.TagValue_StrArray{StrArray: &modelv1.StrArray{Value: names}}}}}}
+		}
 		if req.Criteria == nil {
 			req.Criteria = ent
 		} else {
